@@ -175,6 +175,11 @@ def run(rep, tier, seed):
     common.prove(rep)
     rng = common.rng_for(seed, 'C02')
     drv = common.Driver()
+    # the segmentation loop of OctetStringEncoder.encodeValue (what CER's fixed 1000-octet chunk size drives) is translated from
+    # the source on every run (gen/py2lean.py -> GenK.octetChunks) and run against the real method here
+    from harness import kernels
+    kernels.obligations(rep, ['octetChunks'])
+    kernels.check(rep, drv, seed, 80 if tier == 'quick' else 3000, which=('octetChunks',))
     n = 1500 if tier == 'quick' else 40000
     rep.rule = ('generated (type, value) x (encoder, decoder) in {(DER,DER),(DER,CER),(DER,BER),(CER,CER),(CER,BER)}; strings longer '
                 'than 1000 octets, SET/SET OF members of unequal length and shared prefixes, DEFAULT equal/unequal, explicitly tagged '
